@@ -19,7 +19,7 @@ CONSTANTS
   StartGrowth <- MCStartGrowth
   Limits <- MCNoLimits
   Thresholds <- MCVacuous
-  MaxOps = 6
+  MaxOps = 5
 CHECK_DEADLOCK FALSE
 VIEW view
 INVARIANT TypeOK
